@@ -317,6 +317,8 @@ struct Net {
     /// faults enabled?
     faults_on: Mutex<bool>,
     byz_set: KeyedSet,
+    /// how far in the past the "old" forks are dated
+    old_fork_shift_ns: i64,
     frng: Mutex<Xoshiro>,
     max_delay_ms: u32,
     obs: Arc<Obs>,
@@ -391,11 +393,14 @@ impl Net {
                 ctx.fault("byzantine_answer");
                 let mut frng = self.frng.lock().unwrap();
                 let mut v = honest(origin, n);
-                let kind = ctx.choose("byz.kind", 11);
+                let kind = ctx.choose("byz.kind", 12);
                 ctx.ev("byz", kind as u64, origin);
                 match kind {
-                    0 => {
+                    0 | 11 => {
                         // a self-consistent fork signed by the attacker's own validator set
+                        // (11: dated long before the pruning window, which must not influence
+                        // how the syncer treats the honest headers of these heights)
+                        let back_ns: i64 = if kind == 11 { self.old_fork_shift_ns } else { 0 };
                         let hi = (origin + n - 1).min(head.max(origin));
                         let mut out: Vec<ExtendedHeader> = Vec::new();
                         for h in origin..=hi.min(origin + 63) {
@@ -406,7 +411,7 @@ impl Net {
                                 build_header(&mut frng, HeaderSpec {
                                     chain_id: &self.chain.chain_id,
                                     height: h,
-                                    time: self.chain.time_of(h),
+                                    time: crate::kernel::ctx::time_from_ns(time_to_ns(self.chain.time_of(h)) - back_ns),
                                     prev,
                                     set: &self.byz_set,
                                     next_set: &self.byz_set,
@@ -652,6 +657,10 @@ async fn run_sync(ctx: &Arc<RunCtx>, prune_any: bool) {
     let mut suspend_left = if suspend { 1u32 } else { 0 };
     let prune_on = prune_any || suspend || ctx.coin("cfg.prune_on", 500);
     let prefill = ctx.coin("cfg.prefill", 400);
+    // the scripted sampler normally marks everything stored as sampled at once; a lazy one never
+    // does (data sampling stalled): with pruning window >= sampling window the syncer must still
+    // fill the sampling window (the slow-sync throttle only concerns older heights)
+    let sampler_lazy = ctx.coin("cfg.sampler_lazy", 250);
     ctx.note("config", format!("len={chain_len} bt={block_time_ms} sw={}s pw={}s batch={batch_size} peers={n_peers} byz={byz_permille} faults={fault_phase_s}s churn={churn} prune={prune_on}",
         sampling_window.as_secs(), pruning_window.as_secs()));
 
@@ -728,6 +737,7 @@ async fn run_sync(ctx: &Arc<RunCtx>, prune_any: bool) {
         peers: Mutex::new(peers),
         faults_on: Mutex::new(true),
         byz_set: KeyedSet::generate(&mut fr, 1 + (ctx.choose("byz.set_size", 3) as usize), 1000),
+        old_fork_shift_ns: (pruning_window.as_nanos() as i64) + (span_s as i64 + 3600) * 1_000_000_000,
         frng: Mutex::new(ctx.fixture_rng(8)),
         max_delay_ms: ctx.range("cfg.net_delay_ms", 0, 3000) as u32,
         obs: obs.clone(),
@@ -930,8 +940,10 @@ async fn run_sync(ctx: &Arc<RunCtx>, prune_any: bool) {
                 if let (Ok(stored), Ok(sampled)) = (inner.get_stored_header_ranges().await, inner.get_sampled_ranges().await) {
                     let stored = ranges_to_set(&stored);
                     let sampled = ranges_to_set(&sampled);
-                    for h in stored.difference(&sampled) {
-                        let _ = inner.mark_as_sampled(*h).await;
+                    if !sampler_lazy {
+                        for h in stored.difference(&sampled) {
+                            let _ = inner.mark_as_sampled(*h).await;
+                        }
                     }
                     if prune_on && (faults_on || prune_any) && ctx.coin("prune.event", if prune_any { 250 } else { 100 }) && !stored.is_empty() {
                         let now_ns = ctx.wall_now_ns();
